@@ -153,6 +153,12 @@ def exact_buffer(body, buf):
         x = unwrap(x["recv"])       # `buf.as_mut_slice()` is the whole buffer, like `&mut buf`
         while x.get("k") in ("ref", "un"):
             x = unwrap(x["e"])
+    if x.get("k") == "call" and (x.get("callee") or "") in ("std::slice::from_mut", "core::slice::from_mut") and x.get("args"):
+        y = unwrap(x["args"][0])
+        while y.get("k") in ("ref", "un"):
+            y = unwrap(y["e"])
+        if y.get("k") == "path" and y["res"].get("r") == "local" and str(y.get("ty")) == "u8":
+            return True, "one-byte buffer slice::from_mut(&mut u8)"
     if x.get("k") == "index" and "RangeFull" in (unwrap(x["i"]).get("ty") or ""):
         x = unwrap(x["b"])          # `&mut buf[..]` is the whole buffer
         while x.get("k") in ("ref", "un"):
@@ -869,7 +875,7 @@ def r_reject(run, F, rule="R-REJECT"):
                 if isinstance(e0, tuple) and e0[0] == "proj" and str(e0[2]).startswith("Err.") and any(c[0] == "match" and (c[1] is e0[1] or c[1] == e0[1]) for c in p.conds):
                     continue        # `Err(e) => Err(e)`: the callee's own error handed on, not a new rejection
                 # the deciding test, with integer literals erased: `len != 4`, `len != 8`, .. reached through a per-syntax table are one test
-                cen.setdefault(head(r), set()).add(re.sub(r"\b\d+\b", "#", " && ".join(cshow(c) for c in p.conds[-1:]))[:160])
+                cen.setdefault(head(r), set()).add(re.sub(r"ipp::model::ValueTag::\w+", "ValueTag::#", re.sub(r"\b\d+\b", "#", " && ".join(cshow(c) for c in p.conds[-1:])))[:160])
         if fn == "ipp::parser::ParserState::parse_value":
             # the member-grouping rejection ("a value before any member name") needs a value in hand: it is decided inside the loop over the
             # collected items, or after an item was positively taken from them - never by the mere absence of items (an empty collection,
